@@ -58,6 +58,41 @@ def _v(oracle, sig, detail):
     return {"oracle": oracle, "sig": f"{oracle}|{sig}", "detail": detail}
 
 
+def unbalanced_braces(text: str) -> bool:
+    """True if '{' and '}' outside strings and comments do not balance.  Texts with macros or rich-text blocks
+    are not judged (a macro body may legitimately carry a lone brace)."""
+    if "macro" in text or "-8<-" in text or "${" in text:
+        return False
+    depth = 0
+    i, n = 0, len(text)
+    while i < n:
+        ch = text[i]
+        if ch in "\"'":
+            j = text.find(ch, i + 1)
+            if j < 0:
+                return False  # unterminated string: the lexer's business, not judged here
+            i = j + 1
+            continue
+        if ch == "#" or text.startswith("//", i):
+            j = text.find("\n", i)
+            i = n if j < 0 else j + 1
+            continue
+        if text.startswith("/*", i):
+            j = text.find("*/", i + 2)
+            if j < 0:
+                return False
+            i = j + 2
+            continue
+        if ch == "{":
+            depth += 1
+        elif ch == "}":
+            depth -= 1
+            if depth < 0:
+                return True
+        i += 1
+    return depth != 0
+
+
 def oracles(case: dict, r: dict, B: dict) -> list[dict]:
     V = []
     if r.get("wall_timeout"):
@@ -78,9 +113,14 @@ def oracles(case: dict, r: dict, B: dict) -> list[dict]:
             V.append(_v("bounded", "parse-rejected", f"rejecting a {r['len']}-char text took {r['steps_parse']} steps > {lim}"))
         return V
     # accepted
+    if unbalanced_braces(case.get("text", "")):
+        V.append(_v("rejection", "accepted-with-unbalanced-braces", "parse() accepted a text whose braces do not balance (every block of the grammar is brace-delimited, so the text is not a project; e.g. a file truncated inside a block)"))
     m = r["m_before"]
-    Mp = r["len"] + (m.get("S", 1) - 1) * (m["R"] + m["T"]) * (r["len"] + m["H"] * (m["R"] + m["T"]))
-    lim = B["parse_c0"] + B["parse_c1"] * Mp
+    # building the model deep-copies inherited attribute values (limits, scenario overrides) whose object graph
+    # reaches the whole project: cost ~ text size x number of properties x scenarios.  In practice the absolute
+    # parse cap is the binding bound for all but tiny projects; the formula documents what "proportional" means here.
+    Mp = r["len"] * (1 + (m["R"] + m["T"]) * m.get("S", 1))
+    lim = min(B["parse_cap"], B["parse_c0"] + B["parse_c1"] * Mp)
     if r["steps_parse"] > lim:
         V.append(_v("bounded", "parse", f"parse of an accepted text took {r['steps_parse']} steps > {lim} (len={r['len']}, {m})"))
     s = r.get("sched")
